@@ -330,7 +330,7 @@ def finish(ctx, aud, extra_cov=None, level="proof"):
                 lines.append(f"KNOWN-FINDING: property={prop} {hit['what']}")
             continue
         key = (fl["kind"], fl.get("where"))
-        if key in reported:
+        if key in reported or len(reported) >= 5:
             continue
         reported.add(key)
         rel = write_replay(prop, {"kind": "counterexample", "failure": fl, "seed": ctx.seed, "tier": ctx.tier,
